@@ -45,8 +45,11 @@ func (valdec sliceDecoder) Decode(dec *Decoder, p interface{}, tag byte) {
 		valdec.t.UnsafeGrow(slice, n)
 		dec.AddReference(p)
 		if n < count {
-			dec.growing = append(dec.growing, slice)
-			defer func() { dec.growing = dec.growing[:len(dec.growing)-1] }()
+			if dec.growing == nil {
+				dec.growing = make(map[unsafe.Pointer]struct{})
+			}
+			dec.growing[slice] = struct{}{}
+			defer delete(dec.growing, slice)
 		}
 		for i := 0; i < count && dec.Error == nil; i++ {
 			if i == n {
